@@ -27,9 +27,18 @@ def run_sharded(driver, chk, w, extra=(), profile="release"):
 
 def model_part(chk, thorough):
     """(M) SieveProto with the AbortFlips fault action: AbortBounded."""
-    for cfg in ["MC_SieveProto_abort.cfg"]:
-        r = core.model_check("sieveproto/SieveProto.tla", cfg, workers=4, timeout=1500)
+    cfgs = ["MC_SieveProto_abort.cfg", "MC_SieveProto_abort_live.cfg", "MC_SieveProto_mpqs.cfg", "MC_SieveProto_seq.cfg"]
+    with cf.ThreadPoolExecutor(max_workers=2) as ex:
+        for r in ex.map(lambda c: core.model_check("sieveproto/SieveProto.tla", c, workers=2, timeout=1500), cfgs):
+            chk.add_mc(r)
+    if thorough:
+        r = core.model_check("sieveproto/SieveProto.tla", "MC_SieveProto_w3.cfg", workers=4, timeout=1500,
+                             extra=["-simulate", "num=20000", "-depth", "400"])
         chk.add_mc(r)
+    chk.notes.append({"model": "SieveProto with the AbortFlips fault action (2 workers x 2 tasks x 2 polynomials; MPQS flavour; sequential loop; "
+                      "thorough: 3 workers by simulation): AbortBounded = a worker whose poll returned true starts no unit, no worker starts "
+                      "more than one unit after the flip, an abort seen by any worker is seen by main's final check so the partial relation "
+                      "set never reaches final_step; Termination under weak fairness"})
 
 
 def run(chk, replay=None):
